@@ -831,6 +831,24 @@ func formatCorners(c *Ctx) {
 			}
 		}
 	}
+	// (2c) both owner blocks on one entry, as compatibility-minded writers emit them: the 16-bit unix2 block carries the id
+	// truncated, the unix3 block the full id — the newer block is the owner, in either order of the blocks
+	{
+		u3only := []byte{0x75, 0x78, 11, 0, 1, 4, 0x70, 0x11, 0x01, 0, 4, 100, 0, 0, 0} // uid 70000, gid 100
+		u2trunc := []byte{0x55, 0x78, 4, 0, 0x70, 0x11, 100, 0}                          // uid 70000 & 0xffff = 4464, gid 100
+		pth := filepath.Join(base, "both-ref.zip")
+		mkzip(pth, u3only)
+		ref := scan("zip", pth)
+		for k, blk := range [][]byte{append(append([]byte(nil), u2trunc...), u3only...), append(append([]byte(nil), u3only...), u2trunc...)} {
+			pth := filepath.Join(base, fmt.Sprintf("both-%d.zip", k))
+			mkzip(pth, blk)
+			got := scan("zip", pth)
+			c.H("corner:zip-both-owner-blocks:" + strings.Fields(got)[0])
+			if strings.HasPrefix(ref, "ok ") && got != ref {
+				c.PropFail("roundtrip-id", fmt.Sprintf("a zip entry with a unix2 block (uid truncated to 16 bits: 4464) and a unix3 block (uid 70000), order %d, scans to %s; with the unix3 block alone to %s", k, got, ref), op)
+			}
+		}
+	}
 	// (3)
 	for _, when := range []int64{-152668433, 4423000000, -1, 4294967296, 4294967295, 0} {
 		src := filepath.Join(base, fmt.Sprintf("zt%d", when))
